@@ -41,8 +41,15 @@ def layout_jobs(tier):
             mid = U.shift_op(b, L + 1)
             mixed3.append([first, mid, U.shift_op(("w", 2, 2), U.op_end(mid))])
             mixed3.append([first, mid, U.shift_op(("w", 0, 1), U.op_end(mid)), U.shift_op(("w", 1, 2), U.op_end(mid) + 1)])
+    # a restarted recorder (new session) whose first write falls into a file period published by the first
+    # session (must be refused: the model marks such writes as blocked), then continues in a free period
+    resume = []
+    for L in (1, 3, 9):
+        resume.append([("w", 0, L), ("open", {"uuid": "resumed-session"}), ("w", 0, 2), ("w", 60, 2)])
+        resume.append([("w", 0, L), ("w", L + 2, 2), ("open", {"uuid": "resumed-session", "start_delta": L + 1}), ("w", 0, 3), ("w", 70, 1)])
     hist_all = [(s, "linear") for s in seqs2] + [(s, "full") for s in seqs3] + \
-        [([b], "linear") for b in blocks] + [(m, "full") for m in mixed] + [(m, "full") for m in mixed3]
+        [([b], "linear") for b in blocks] + [(m, "full") for m in mixed] + [(m, "full") for m in mixed3] + \
+        [(m, "full") for m in resume]
     # compression / checksum variants share the chunked code path with gapped mode: in the quick
     # tier they get a third of the depth-2 sequences plus all block layouts
     hist_light = [(s, "linear") for s in seqs2[::3]] + [([b], "linear") for b in blocks]
